@@ -117,11 +117,13 @@ class Ctx:
               "coverage": cov, "assumptions": self.assumptions, "wall_s": round(time.time() - self.t0, 2),
               "violations": len(self.violations),
               "known_findings_hit": [s for s, _ in self.known_hits]}
-        os.makedirs(EVIDENCE_DIR, exist_ok=True)
-        tmp = os.path.join(EVIDENCE_DIR, self.pid + ".json.tmp")
+        # checks of the specification's growth beyond the listed properties (G..) keep their evidence apart
+        evdir = EVIDENCE_DIR if self.pid.startswith("C") else os.path.join(EVIDENCE_DIR, "growth")
+        os.makedirs(evdir, exist_ok=True)
+        tmp = os.path.join(evdir, self.pid + ".json.tmp")
         with open(tmp, "w", encoding="utf-8") as f:
             json.dump(ev, f, indent=1, sort_keys=True)
-        os.replace(tmp, os.path.join(EVIDENCE_DIR, self.pid + ".json"))
+        os.replace(tmp, os.path.join(evdir, self.pid + ".json"))
         for sig, what in self.known_hits:
             print("KNOWN-FINDING: property=%s %s [%s]" % (self.pid, what, sig))
         for sig, desc, path in self.violations:
